@@ -7,6 +7,7 @@ import numpy as np
 import strawberryfields as sf
 from strawberryfields import ops
 from strawberryfields import program_utils as pu
+from strawberryfields.parameters import par_funcs as pf
 from strawberryfields.program_utils import CircuitError
 from vlib import coq
 
@@ -41,7 +42,8 @@ SINGLE = ["Rgate", "Sgate", "Dgate"]
 # kind -> (class name in the compiled circuit, merge family of a plain single-mode gate or None)
 KINDS = {
     "g1": ("Rgate", "R"), "g1i": ("Rgate", "R"), "s1": ("Sgate", "S"), "d1": ("Dgate", "D"), "k1": ("Kgate", "K"), "v1": ("Vgate", "V"),
-    "g2": ("BSgate", None), "g3": ("Interferometer", None),
+    "pv": ("Vacuum", "P"), "ps": ("Squeezed", "P"), "lc": ("LossChannel", "L"),
+    "g2": ("BSgate", None), "g3": ("Interferometer", None), "ga": ("Rgate", None),
     "mx": ("MeasureHomodyne", None), "mxs": ("MeasureHomodyne", None), "mhd": ("MeasureHeterodyne", None), "mf": ("MeasureFock", None),
     "gp": ("Rgate", None), "gd": ("Dgate", None), "g2p": ("BSgate", None),
     "new": ("_New_modes", None), "del": ("_Delete", None), "nd": ("Rgate", None),
@@ -57,7 +59,13 @@ def dep_list(dep):
     return [dep]
 
 
-def par_expr(regs, deps):
+def par_expr(regs, deps, product=False):
+    """One expression in the measured values of all modes in deps: a weighted sum, or a product with a function applied."""
+    if product:
+        e = pf.sin(regs[deps[0]].par)
+        for d in deps[1:]:
+            e = e * regs[d].par
+        return e
     e = 0
     for j, d in enumerate(deps):
         e = e + (j + 1) * regs[d].par
@@ -86,6 +94,14 @@ def build(n, cmds):
                     ops.Kgate(0.1) | regs[modes[0]]
                 elif kind == "v1":
                     ops.Vgate(0.1) | regs[modes[0]]
+                elif kind == "pv":
+                    ops.Vacuum() | regs[modes[0]]
+                elif kind == "ps":
+                    ops.Squeezed(0.3) | regs[modes[0]]
+                elif kind == "lc":
+                    ops.LossChannel(0.9) | regs[modes[0]]
+                elif kind == "ga":
+                    ops.Rgate(np.array([regs[d].par for d in deps], dtype=object)) | regs[modes[0]]
                 elif kind == "g2":
                     ops.BSgate(0.4, 0.1) | (regs[modes[0]], regs[modes[1]])
                 elif kind == "g3":
@@ -103,7 +119,7 @@ def build(n, cmds):
                 elif kind == "gd":
                     ops.Dgate(regs[deps[0]].par, regs[deps[1]].par if len(deps) > 1 else 0.3) | regs[modes[0]]
                 elif kind == "g2p":
-                    ops.BSgate(par_expr(regs, deps), 0.1) | (regs[modes[0]], regs[modes[1]])
+                    ops.BSgate(par_expr(regs, deps, product=True), 0.1) | (regs[modes[0]], regs[modes[1]])
                 elif kind == "new":
                     refs = ops.New(len(modes))
                     if [r.ind for r in refs] != list(modes):
@@ -226,8 +242,8 @@ def gbs_oracle(cmds):
 def family(c):
     """Merge family of a command the optimiser may merge with a neighbour: plain single-mode gates, and single-mode gates whose
     parameter is a measured value of the very mode they act on (they sit on one wire only).  None: never merged."""
-    if c[0] in ("gp", "gd"):
-        return ("R" if c[0] == "gp" else "D") if set(dep_list(c[2])) <= set(c[1]) else None
+    if c[0] in ("gp", "gd", "ga"):
+        return ("D" if c[0] == "gd" else "R") if set(dep_list(c[2])) <= set(c[1]) else None
     return KINDS[c[0]][1]
 
 
@@ -304,14 +320,14 @@ def pick_register(rng):
     return n, list(range(n))
 
 
-RICH_WEIGHTS = {"utils": [("single", 18), ("g2", 14), ("g3", 5), ("mx", 8), ("mhd", 3), ("mxs", 2), ("mf", 10), ("gp", 13), ("gd", 5), ("g2p", 5),
+RICH_WEIGHTS = {"utils": [("single", 18), ("g2", 14), ("g3", 5), ("mx", 8), ("mhd", 3), ("mxs", 2), ("mf", 10), ("gp", 13), ("gd", 5), ("g2p", 5), ("ga", 2),
                           ("new", 5), ("del", 6), ("nd", 2)],
-                "prog": [("single", 26), ("g2", 14), ("g3", 4), ("mx", 8), ("mhd", 3), ("mxs", 2), ("mf", 8), ("gp", 12), ("gd", 5), ("g2p", 5),
+                "prog": [("single", 26), ("g2", 14), ("g3", 4), ("mx", 8), ("mhd", 3), ("mxs", 2), ("mf", 8), ("gp", 12), ("gd", 5), ("g2p", 5), ("ga", 2),
                          ("new", 4), ("del", 5)],
                 "compile": [("single", 26), ("g2", 14), ("mx", 8), ("mxs", 2), ("mf", 8), ("gp", 12), ("gd", 5), ("g2p", 5), ("new", 4), ("del", 5)]}
 
 
-def rich_cmds(rng, n, focus, length, palette="utils", singles=("g1", "g1i", "s1", "d1", "k1", "v1")):
+def rich_cmds(rng, n, focus, length, palette="utils", singles=("g1", "g1i", "s1", "d1", "k1", "v1", "pv", "ps", "lc")):
     """Random command sequence accepted by the front end: every kind of KINDS, measured parameters of one to three modes,
     New-created modes, deletions (also of a mode whose measured value has been used)."""
     names, weights = zip(*RICH_WEIGHTS[palette])
@@ -321,7 +337,7 @@ def rich_cmds(rng, n, focus, length, palette="utils", singles=("g1", "g1i", "s1"
     out = []
     for _ in range(length):
         kind = rng.choices(names, weights)[0]
-        if kind in ("gp", "gd", "g2p") and not measured:
+        if kind in ("gp", "gd", "g2p", "ga") and not measured:
             kind = "single"
         if kind in ("g2", "g2p") and len(live) < 2:
             kind = "single"
@@ -347,9 +363,9 @@ def rich_cmds(rng, n, focus, length, palette="utils", singles=("g1", "g1i", "s1"
         elif kind == "gp":
             ds = rng.sample(measured, rng.randint(1, min(3, len(measured))))
             out.append(("gp", [rng.choice(live)], ds[0] if len(ds) == 1 and rng.random() < 0.5 else ds))
-        elif kind == "gd":
+        elif kind in ("gd", "ga"):
             ds = rng.sample(measured, rng.randint(1, min(2, len(measured))))
-            out.append(("gd", [rng.choice(live)], ds))
+            out.append((kind, [rng.choice(live)], ds))
         elif kind == "g2p":
             ds = rng.sample(measured, rng.randint(1, min(2, len(measured))))
             out.append(("g2p", rng.sample(live, 2), ds))
@@ -422,7 +438,7 @@ def make_marks(rng, cmds, mode):
     if mode == "measure":
         return [c[0] in MEASURE for c in cmds]
     if mode == "param":
-        return [c[0] in ("gp", "gd", "g2p") for c in cmds]
+        return [c[0] in ("gp", "gd", "g2p", "ga") for c in cmds]
     if mode == "all":
         return [True for _ in cmds]
     if mode == "none":
@@ -431,9 +447,14 @@ def make_marks(rng, cmds, mode):
     return [i == k for i in range(len(cmds))]
 
 
+class InputModified(Exception):
+    pass
+
+
 def impl_views(circ, rounds=0):
     """Run the implementation's conversions on a list of Commands; everything is reported as command indices."""
     circ = list(circ)
+    ids0 = [id(c) for c in circ]
     idx = {id(c): i for i, c in enumerate(circ)}
     if len(idx) != len(circ):
         raise AssertionError("same Command object twice")
@@ -442,7 +463,7 @@ def impl_views(circ, rounds=0):
     dag = pu.grid_to_DAG(grid)
     edges = sorted((idx[id(a)], idx[id(b)]) for a, b in dag.edges())
     nodes = sorted(idx[id(a)] for a in dag.nodes())
-    dag_l = pu.list_to_DAG(circ)
+    dag_l = pu.list_to_DAG(iter(circ) if rounds % 2 else tuple(circ))  # the argument is documented as any iterable
     edges_l = sorted((idx[id(a)], idx[id(b)]) for a, b in dag_l.edges())
     nodes_l = sorted(idx[id(a)] for a in dag_l.nodes())
     out = [idx[id(c)] for c in pu.DAG_to_list(dag)]
@@ -453,6 +474,8 @@ def impl_views(circ, rounds=0):
     for k in range(rounds):
         cur = pu.DAG_to_list(pu.grid_to_DAG(pu.list_to_grid(cur)) if k % 2 else pu.list_to_DAG(cur))
     out3 = [idx[id(c)] for c in cur]
+    if [id(c) for c in circ] != ids0:
+        raise InputModified("the conversions changed the list they were given")
     return {"grid": grid_ids, "edges": edges, "nodes": nodes, "edges_l": edges_l, "nodes_l": nodes_l, "outs": [out, out2, out3], "idx": idx}
 
 
@@ -460,7 +483,11 @@ def impl_group(circ, idx, marks):
     """group_operations under the predicate "the operation belongs to a marked command".  Operations such as MeasureX are shared
     objects, so marking one command marks every command with the same operation: the effective marks are returned."""
     pred_ids = {id(circ[i].op) for i in range(len(circ)) if marks[i]}
-    A, B, C = pu.group_operations(circ, lambda op: id(op) in pred_ids)
+    ids0 = [id(c) for c in circ]
+    arg = tuple(circ) if len(pred_ids) % 2 else circ  # any Sequence
+    A, B, C = pu.group_operations(arg, lambda op: id(op) in pred_ids)
+    if [id(c) for c in circ] != ids0:
+        raise InputModified("group_operations changed the sequence it was given")
     eff = [id(c.op) in pred_ids for c in circ]
     return eff, ([idx[id(c)] for c in A], [idx[id(c)] for c in B], [idx[id(c)] for c in C])
 
@@ -568,7 +595,7 @@ def correspondence(ctx):
             cmds = it["cmds"]
             nlin = count_linearisations(len(cmds), it["edges"])
             anymark = any(any(mk) for mk, _ in it["grps"])
-            nontriv = nlin >= 2 and (any(c[0] in ("gp", "gd", "g2p") for c in cmds) or anymark)
+            nontriv = nlin >= 2 and (any(c[0] in ("gp", "gd", "g2p", "ga") for c in cmds) or anymark)
             big = any(m >= 10 for c in cmds for m in spec_deps(c))
             ctx.case({"n": it["n"], "cmds": cmds, "marks": it["grps"][0][0]}, nontrivial=nontriv,
                      bucket="%s-len%d%s" % (it["fam"], min(len(cmds), 8), "-ge10" if big else ""))
@@ -710,7 +737,7 @@ def gbs_rich(rng):
     for _ in range(rng.randint(0, 7)):
         r = rng.random()
         if r < 0.35:
-            cmds.append((rng.choice(["g1", "s1", "d1"]), [rng.choice(live)], None))
+            cmds.append((rng.choice(["g1", "s1", "d1", "ps", "pv", "lc"]), [rng.choice(live)], None))
         elif r < 0.55 and len(live) >= 2:
             cmds.append(("g2", rng.sample(live, 2), None))
         elif r < 0.67:
@@ -765,13 +792,23 @@ def run_gbs(n, cmds, optimize=False):
     if prog is None:
         return None
     idx = {id(c): i for i, c in enumerate(prog.circuit)}
+    ids0 = [id(c) for c in prog.circuit]
     try:
         out = prog.compile(compiler="gbs", optimize=optimize)
     except CircuitError as e:
+        if [id(c) for c in prog.circuit] != ids0:
+            raise InputModified("Program.compile changed the circuit of the source program")
         return ("error", str(e))
+    if [id(c) for c in prog.circuit] != ids0:
+        raise InputModified("Program.compile changed the circuit of the source program")
     res = []
     for c in out.circuit:
         res.append((c.op.__class__.__name__, [r.ind for r in c.reg], idx.get(id(c))))
+    # compiling the compiled program once more must give the same circuit again (one final measurement, same Gaussian part)
+    again = out.compile(compiler="gbs")
+    res2 = [(c.op.__class__.__name__, [r.ind for r in c.reg]) for c in again.circuit]
+    if sorted(map(repr, res2)) != sorted(map(repr, [x[:2] for x in res])) or (res2 and res2[-1] != res[-1][:2]):
+        raise InputModified("compiling the compiled GBS program again changed its commands: %s -> %s" % ([x[:2] for x in res], res2))
     return ("ok", res)
 
 
@@ -890,7 +927,7 @@ def judge_relinearised(cmds, circ_in, circ_out, exact):
     for c, i in zip(circ_out, got):
         if i is None:
             dn = sorted({r.ind for r in c.reg} | {r.ind for r in c.op.measurement_deps})
-            if len(c.reg) != 1 or len(dn) != 1 or c.op.__class__.__name__ not in ("Rgate", "Sgate", "Dgate", "Kgate", "Vgate"):
+            if len(c.reg) != 1 or len(dn) != 1 or c.op.__class__.__name__ not in ("Rgate", "Sgate", "Dgate", "Kgate", "Vgate", "Vacuum", "Squeezed", "LossChannel"):
                 return ("foreign-command", "the output contains the new command %s, which cannot come from merging two plain single-mode gates" % c), got
     # per wire the number of commands can only shrink
     cnt_in = {w: len(q) for w, q in py_wires(cmds).items()}
@@ -927,11 +964,11 @@ def prog_case(rng, palette):
     n, focus = pick_register(rng)
     style = rng.random()
     if style < 0.45:
-        singles = ("g1", "s1", "d1") if palette == "compile" else ("g1", "s1", "d1", "k1", "v1")  # few merges
+        singles = ("g1", "s1", "d1", "ps", "lc") if palette == "compile" else ("g1", "s1", "d1", "k1", "v1", "ps", "lc")  # few merges
     elif style < 0.75:
         singles = ("g1", "g1i")  # many merges and cancellations (wires may become empty)
     else:
-        singles = ("g1", "g1i", "s1")
+        singles = ("g1", "g1i", "s1", "pv", "ps", "lc")
     return n, [tuple(c) for c in rich_cmds(rng, n, focus, rng.randint(1, 12), palette=palette, singles=singles)]
 
 
@@ -945,9 +982,11 @@ def run_relinearise(site, n, cmds, compiler=None, optimize=False):
         if site == "optimize":
             out = prog.optimize().circuit
         else:
-            out = prog.compile(compiler=compiler, optimize=optimize).circuit
+            out = prog.compile(compiler=compiler, optimize=optimize, warn_connected=bool(len(cmds) % 2)).circuit
     except CircuitError as e:
         return "circuit-error", str(e)
+    if [id(c) for c in prog.circuit] != [id(c) for c in circ_in]:
+        raise InputModified("%s changed the circuit of the source program" % site)
     exact = (site == "compile" and not optimize) or merge_free(cmds)
     bad, got = judge_relinearised(cmds, circ_in, list(out), exact)
     if site == "compile" and not optimize and bad is None and got != list(range(len(cmds))):
@@ -978,7 +1017,7 @@ def search_prog(ctx):
             continue
         bad, got, exact = info
         mf_ = merge_free(cmds)
-        ctx.case({"site": name, "n": n, "cmds": cmds}, nontrivial=len(py_edges(cmds)) >= 2 and any(c[0] in ("gp", "gd", "g2p", "del", "new") for c in cmds),
+        ctx.case({"site": name, "n": n, "cmds": cmds}, nontrivial=len(py_edges(cmds)) >= 2 and any(c[0] in ("gp", "gd", "g2p", "ga", "del", "new") for c in cmds),
                  bucket="%s-%s" % (site, "exact" if exact else "merging"))
         if bad:
             ctx.counterexample("%s:%s" % (site, bad[0]), "%s: %s" % (name, bad[1]), data)
